@@ -29,6 +29,18 @@ Theorem C12_response_segment_size : forall s, server_segsize s <= s_maxapdu s.
 Proof. exact server_segsize_le. Qed.
 Print Assumptions C12_response_segment_size.
 
+(* I-Am data: the latest I-Am always wins.  After the application has recorded an I-Am (SsmWorld.iam_update = DeviceInfoCache.
+   iam_device_info), whether or not transactions with that peer are open, the record carries the announced maximum and
+   segmentation support, every open transaction that holds a record of that peer sees it, and a request submitted from then
+   on is cut to at most the announced length *)
+Theorem C12_latest_iam_wins : forall addr peer ma sg w n, get_node addr (w_nodes w) = Some n -> c_raw (n_cfg n) = false ->
+  exists n' d, get_node addr (w_nodes (iam_update addr peer ma sg w)) = Some n' /\
+    assoc peer (c_know (n_cfg n')) = Some d /\ d_maxapdu d = Some ma /\ d_seg d = sg /\
+    (forall t, In t (n_ctr n' ++ n_str n') -> s_peer t = peer -> s_dinfo t <> None -> s_dinfo t = Some d) /\
+    client_segsize (new_ssm (n_cfg n') peer true) <= ma.
+Proof. exact iam_update_record. Qed.
+Print Assumptions C12_latest_iam_wins.
+
 (* the limit the server holds is the one decoded from the request when nothing is recorded about the client ... *)
 Theorem C12_response_limit_from_request : forall a st dec, a_type a = 0 -> decode_max_apdu_length_accepted (a_maxresp a) = Ok (Some dec) ->
   s_dinfo (h_s st) = None -> s_maxapdu (h_s (fst (s_idle a st))) = dec.
